@@ -74,9 +74,11 @@ def WF.imports (inp : Input) : Bool :=
   let lv := List.range (maxD + 1)
   -- A: full sanitised paths pairwise distinct
   nodupB (P.map fun p => uniqueName p.1 maxD) &&
-  -- X: candidates of different packages at different levels differ
+  -- X: candidates of different packages at different levels differ (levels beyond a path's depth
+  -- repeat its last candidate and are not counted again: `log` is `log` at every level)
   (P.all fun p => P.all fun q => p.1 = q.1 ||
-    lv.all fun l => lv.all fun l' => l = l' || uniqueName p.1 l ≠ uniqueName q.1 l') &&
+    lv.all fun l => lv.all fun l' => l = l' || l > pathDepth p.1 || l' > pathDepth q.1 ||
+      uniqueName p.1 l ≠ uniqueName q.1 l') &&
   -- Q: a candidate of level ≥ 1 is nobody else's initial qualifier (levels beyond a path's depth
   -- repeat its last candidate: a one-component path such as `sync` has level-0 candidates only)
   (P.all fun p => P.all fun q => p.1 = q.1 ||
@@ -126,6 +128,13 @@ def scopeNamesOK (cands : List Str) (reservedHere : List Str) (bases : List Str)
   nodupB (B.map exported) &&
   (B.all fun b => !(Str.upper b ∈ initialisms) || exported b = b || true)
 
+/-- the names conflict resolution can still hand out to a package this method mentions, after
+    the method's scope is closed (F-24: nothing renames the method's variables then) -/
+def lateQuals (inp : Input) (m : MethodIn) : List Str :=
+  (m.allTys.flatMap Ty.pkgsOf).flatMap fun p =>
+    let path := stripVendorPath p.path
+    ((List.range (pathDepth path + 1)).map (uniqueName path)).filter (· ≠ q0 inp (path, p.name))
+
 def WF.names (inp : Input) : Bool :=
   let cands := allCands inp
   let dst := dstPath inp
@@ -134,7 +143,9 @@ def WF.names (inp : Input) : Bool :=
     (i.methods.all fun m =>
       match m.bases with
       | none => false
-      | some bs => scopeNamesOK cands (unqualIdents dst m.allTys ++ tpNames) bs) &&
+      | some bs => scopeNamesOK cands (unqualIdents dst m.allTys ++ tpNames) bs &&
+                   -- (8) no base name is a name a later conflict can give to one of this method's packages
+                   bs.all fun b => !(b ∈ lateQuals inp m)) &&
     -- (7) type parameters: not spelled like any possible qualifier, distinct
     (tpNames.all fun t => !(t ∈ cands)) &&
     scopeNamesOK cands [] tpNames
